@@ -34,7 +34,7 @@ REQUIRED = {"run.rule_attribute_ends_with_its_rule": 1000, "hist.observable_resu
             "run.raising_cleanup_fails_owner_and_run": {"quick": 60, "thorough": 3000}, "run.execute_steps_restores_text_table": {"quick": 30, "thorough": 1500},
             "hist.mode_restored": {"quick": 50, "thorough": 2000}, "hist.scoped_layer_ends_with_its_block": {"quick": 500, "thorough": 20000},
             "tworuns.testrun_scope_of_run1_is_gone": {"quick": 40, "thorough": 1500}}
-REQUIRED_SEEN = {"cleanup_registered_from": ["before_all", "before_feature", "before_rule", "before_scenario", "before_step", "step", "after_step",
+REQUIRED_SEEN = {"userdata": ["same_names_as_context_attributes"], "fixture_tags": ["several_in_one_run"], "cleanup_registered_from": ["before_all", "before_feature", "before_rule", "before_scenario", "before_step", "step", "after_step",
                                              "after_scenario", "before_tag"],
                  "cleanup_layer": ["current", "feature", "scenario", "testrun"],
                  "cleanup_shape": ["same_function_other_arguments"], "before_all_failed_after_registering": ["cleanups"], "generator_fixture_given_as": ["fx_partial", "fx_method"], "scoped_layer_name": ["has_upper_case", "lower_case"],
@@ -451,7 +451,16 @@ def real_run(lab, mon, rng, case, sample=False):
     raising = set()
     plan_rng = random.Random(rng.random())
 
+    MISSING = object()
+
     def snapshot(context):
+        # a name that is not in the context (never set, or its scope has ended) is ABSENT for every way of asking -- also when the
+        # run has user data of the same name (behave -D shared=...: that lives in context.config.userdata, not in the context)
+        for n in sorted(names | set(["shared", "other"])):
+            if n not in context:
+                leaked = getattr(context, n, MISSING)
+                mon.check("run.attribute_outside_its_scope_is_absent", leaked is MISSING and not hasattr(context, n),
+                          lambda: RB.witness(case, attribute=n, getattr_gives=repr(leaked), hasattr=hasattr(context, n)))
         return {n: getattr(context, n) for n in names if n in context}
 
     def act(context, where, elem_name):
@@ -489,8 +498,32 @@ def real_run(lab, mon, rng, case, sample=False):
             except LookupError:
                 ev.append(("register_failed", cid, layer, where))
 
+    # fixture tags: in a part of the runs every tag of the alphabet is a fixture tag that the environment hands to
+    # use_fixture_by_tag() in before_tag (the documented recipe): setup now, teardown when the scope of the tagged element ends
+    fx_log = []
+    fx_on = bool(case.get("fixture_tags"))
+    if fx_on:
+        from behave.fixture import fixture as _fixture, use_fixture_by_tag as _use_by_tag
+
+        def make_fx(tagname):
+            @_fixture
+            def fx(context, *a, **k):
+                token = object()
+                fx_log.append(("setup", tagname, len(ev), id(token)))
+                yield token
+                fx_log.append(("teardown", tagname, len(ev), id(token)))
+            return fx
+        fx_registry = {t: make_fx(t) for t in ("a", "b", "c", "d", "e", "wip")}
+
     def hook_plugin(state, context, name, elem, tag):
         ename = getattr(elem, "name", None)
+        if fx_on and name == "before_tag" and tag in fx_registry:
+            n0 = len(fx_log)
+            got_fx = _use_by_tag(tag, context, fx_registry)
+            new = fx_log[n0:]
+            mon.check("run.fixture_tag_sets_up_a_fixture_of_its_own", len(new) == 1 and new[0][:2] == ("setup", tag) and id(got_fx) == new[0][3],
+                      lambda: RB.witness(case, tag=tag, fixture_events_of_this_call=[list(x[:3]) for x in new], returned=repr(got_fx)))
+            fx_log.append(("use", tag, len(ev), None))
         if name.endswith("_step"):
             sc = getattr(context, "scenario", None)
             ename = sc.name if sc is not None else None
@@ -531,6 +564,20 @@ def real_run(lab, mon, rng, case, sample=False):
     if obs.escaped is not None:
         mon.check("run.no_exception_escapes", False, lambda: W(escaped=repr(obs.escaped)))
         return
+    if fx_on:
+        uses = [x for x in fx_log if x[0] == "use"]
+        for t in sorted(set(x[1] for x in uses)):
+            n_use = sum(1 for x in uses if x[1] == t)
+            n_set = sum(1 for x in fx_log if x[0] == "setup" and x[1] == t)
+            n_down = sum(1 for x in fx_log if x[0] == "teardown" and x[1] == t)
+            mon.check("run.fixture_tag_setup_and_teardown_once_per_tagged_element", n_use == n_set == n_down,
+                      lambda: W(tag=t, before_tag_calls=n_use, setups=n_set, teardowns=n_down))
+        levels = set()
+        for e in ev:
+            if e[0] == "hook" and e[1] == "before_tag":
+                levels.add(e[3])
+        if len(uses) >= 2:
+            mon.seen("fixture_tags", "several_in_one_run")
     pred = runmodel.predict(program, cfg)
     nreg = sum(1 for e in ev if e[0] == "register")
     mon.case(("run", RB.strip_case(case), nreg), nreg >= 2)
@@ -833,6 +880,12 @@ def run(spec, mon):
         case = RB.gen_case(rng, gen=gen, p_stop=0.2, p_dry=0.0, p_noskipped=0.2)
         if i % 6 == 5:
             case = dict(case, hook_fault={"match": ["before_all", None, None], "exc": rng.choice(["Exception", "AssertionError"])})
+        if i % 3 == 2 and not case.get("hook_fault"):
+            case = dict(case, fixture_tags=True)
+        if i % 3 == 1:
+            # user data with the names the hooks and steps use as context attributes
+            case = dict(case, args=case["args"] + ["-D", "shared=from-userdata", "-D", "other=from-userdata", "-D", "v1=x"])
+            mon.seen("userdata", "same_names_as_context_attributes")
         real_run(lab, mon, rng, case, sample=(i == 0 and shard == 0))
     execute_steps_runs(lab, mon, rng, 8 if tier == "quick" else 100)
     two_runs_on_one_runner(lab, mon, rng, 4 if tier == "quick" else 150)
